@@ -282,14 +282,16 @@ Definition parse_offset (s : str) : pres duration :=
           | None => PErr E_Lexical
           | Some hours =>
               match get_bytes s (3 + colon) (5 + colon) with
-              | None => POk (dur_add (dur_add (unit_mul_i64 Hour hours) (unit_mul_i64 Minute 0)) (unit_mul_i64 Second 0))
+              | None => if n <=? 3 + colon       (* the text ends here; a range that cuts a character is not an offset *)
+                        then POk (dur_add (dur_add (unit_mul_i64 Hour hours) (unit_mul_i64 Minute 0)) (unit_mul_i64 Second 0))
+                        else PErr E_InvalidTimezone
               | Some ms =>
                   match lex_i64 ms with
                   | None => PErr E_ValueError
                   | Some minutes =>
                       let fin (seconds : Z) := POk (dur_add (dur_add (unit_mul_i64 Hour hours) (unit_mul_i64 Minute minutes)) (unit_mul_i64 Second seconds)) in
                       match get_bytes_from s (5 + 2 * colon) with
-                      | None => fin 0
+                      | None => if n <=? 5 + 2 * colon then fin 0 else PErr E_InvalidTimezone
                       | Some ss => match ss with
                                    | [] => fin 0
                                    | _ => match lex_i64 ss with Some sec => fin sec | None => PErr E_ValueError end
